@@ -634,3 +634,44 @@ C("_handle_eof_pdu", arg_types={**SELF, "eof_pdu": T.Obj(EofPdu)}, props=("C12",
       Clause("C05.eof_does_not_touch_files", lambda o, n, r: all(e["op"] == "calculate_checksum" for e in vfs_ops(n)), ("C05",)),
   ] + inv_clauses(("C12",)),
   modular=False)
+
+
+# ==============================================================================================
+# C05 / C15 / C02: Metadata handling, destination path resolution, file creation
+# ==============================================================================================
+from stubs.cfdp import fs_is_dir, fs_exists, path_join, path_name, path_of_str, EMPTY_PATH  # noqa: E402
+from pyvc.values import SPath, SStr  # noqa: E402
+
+
+def _resolved_path(o):
+    """the property's destination path: the given name, or <dir>/<source base name> when it names a directory"""
+    p = o.self._params.fp.file_name.p
+    return z3.If(fs_is_dir(FS0, p), path_join(p, o.source_base_name.s), p)
+
+
+C("_init_vfs_handling", arg_types={**SELF, "source_base_name": T.Str}, props=("C05", "C02", "C14"), result=None,
+  requires=REQ_INV + [("busy", _busy_noarg := (lambda o: And_(ne(o.self.states.state, IDLE), Not_(isnone(o.self._params.transaction_id)))))],
+  modifies=["self._params.fp.file_name", "self._params.finished_params.file_status", "self.states.step", "self.states.state",
+            "self._params.finished_params.condition_code", "self._params.completion_disposition", "self._params"],
+  ensures=[
+      # no rejection: the resolved file exists and is empty afterwards: truncated if it existed, created otherwise;
+      # nothing else in the filestore is touched
+      Clause("C05.create_or_truncate_resolved_path", lambda o, n, r: (
+          (lambda ops, muts, rej: (
+              And_(Eq_(n.self._params.fp.file_name.p, _resolved_path(o)),
+                   len(muts) == 1 and And_(
+                       Eq_(muts[0]["path"].p, _resolved_path(o)),
+                       (fs_exists(FS0, _resolved_path(o)) if muts[0]["op"] == "truncate_file" else Not_(fs_exists(FS0, _resolved_path(o)))),
+                       eq(_fpar(n.self).file_status, FileStatus.FILE_RETAINED)))
+              if not rej else len(muts) == 0))
+          ([e for e in vfs_ops(n)], [e for e in vfs_ops(n) if e["op"] in ("truncate_file", "create_file", "write_data", "delete_file")],
+           [e for e in n.trace if e["kind"] == "vfs_rejected"])), ("C05", "C02")),
+      Clause("C05.only_queries_and_one_mutation", lambda o, n, r: all(
+          e["op"] in ("is_directory", "file_exists", "truncate_file", "create_file") for e in vfs_ops(n)), ("C05",)),
+      Clause("C14.filestore_rejection_declared", lambda o, n, r: (
+          (lambda rej: (len(fault_cbs(n)) == 1 and Eq_(fault_cbs(n)[0]["cond"], CC.FILESTORE_REJECTION)) if rej else no_fault(n))
+          ([e for e in n.trace if e["kind"] == "vfs_rejected" and e["exc"] is PermissionError])), ("C14", "C01")),
+      Clause("silent", lambda o, n, r: len(emitted(n)) == 0 and len(inds(n)) == 0, ("C05",)),
+  ],
+  raises=[RaiseClause("vfs.truncate_race", FileNotFoundError, props=("C10",), modifies=["self._params.fp.file_name"])],
+  effects={"vfs", "fault_cb"}, modular=False)
